@@ -4,11 +4,11 @@ package main
 // Monitor M1 only (pure classification), so arbitrary texts can be used.
 
 import (
-	"strconv"
 	"crypto/sha1"
 	"fmt"
 	"os"
 	"path/filepath"
+	"strconv"
 	"strings"
 	"time"
 )
@@ -163,6 +163,30 @@ func c01CheckB(c *Case, r c01Run, fuzzing bool, cli bool, key string, budget int
 			if strings.Contains(se, "DATA RACE") || strings.Contains(se, "checkptr") || rr.Exit == 66 || cliFault(rr) != "" {
 				c.Violation(fmt.Sprintf("%s (race/checkptr build): exit %d, stderr %s | program: %s", key, rr.Exit, clip(se, 300), clip(r.prog, 200)), nil,
 					map[string]any{"program": r.prog, "selectors": r.sels, "input": string(r.input), "stderr": se})
+				return
+			}
+			c.Held()
+		}
+	}
+	// the debugging flags show tokens / the tree of the same text: they end with status 0, or 1 and the syntax error
+	if c.Idx%6 == 0 && len(r.prog) <= 3000 { // (printing the tree of a long program takes seconds)
+		for _, flag := range []string{"-dbg-ast", "-dbg-lex"} {
+			dr := RunCli(c.env.Jqawk, append([]string{flag}, args...), r.input, c.env.Scratch, 60*time.Second)
+			if dr.TimedOut {
+				c.Inconclusive("cli-timeout")
+				continue
+			}
+			c.Count("binary_runs" + flag)
+			f := cliFault(dr)
+			if f == "" && dr.Exit != 0 && dr.Exit != 1 {
+				f = fmt.Sprintf("exit status %d", dr.Exit)
+			}
+			if f == "" && flag == "-dbg-ast" && (dr.Exit == 0) != (lib.Class != "syntax") {
+				f = fmt.Sprintf("exit status %d although the run of the same text ends as %s", dr.Exit, lib.Class)
+			}
+			if f != "" {
+				c.Violation(fmt.Sprintf("%s (binary, %s): %s | stderr: %s | program: %s | selectors: %q", key, flag, f, clip(string(dr.Stderr), 200), clip(r.prog, 200), r.sels), nil,
+					map[string]any{"program": r.prog, "selectors": r.sels, "flag": flag, "stderr": string(dr.Stderr), "exit": dr.Exit})
 				return
 			}
 			c.Held()
@@ -663,7 +687,7 @@ func c01Run_(c *Case) {
 func init() {
 	register(&Prop{
 		ID: "C01", Level: "exploration",
-		Rule:          "outcome classification only (no model): every run must end as ok / syntax / runtime / json; a recovered panic, a control-flow sentinel or any other error value, the death of the worker process, and for the binary a signal, a Go trace on stderr or a non-zero status without diagnostic are violations. Enumerated: {next, exit, break, continue, return, return v} x 16 placements (BEGIN, END, BEGINFILE, ENDFILE, pattern body, pattern expression via a match block, function called from each of the five rule kinds, match block in BEGIN / pattern rule / function, -r selector via a match block alone and after a plain selector) x {plain, while, for, for-in, nested for-in, nested if} x 4 inputs, all also through the binary; 28 nestable constructs nested 1000 / 8000 / as deep as 64 KiB allows, and 6 of them inside a self-recursive function (recursion x nesting); 22 cyclic / shared shapes (built twice) x 62 operations that walk a value (comparison, contains, sort, match, iteration, rendering, arithmetic, member chains, stores into itself) and 15 histories that shrink an array through one of two references and then walk it through the other; 25 store forms (plain, nested, through fresh names, through $, with ++ / += / --) x 18 keys of every kind (booleans, null, unset, containers, regex, function, fractions, negative, huge) on bases of every kind; every one-byte input and 50 short prefixes of byte-order marks, multi-byte sequences and JSON tokens; the six signals raised from every loop-header position / condition / print list through a match block, with and without an enclosing loop, at rule level and inside functions; method calls on every receiver kind whose argument reassigns the receiver's own location to a value of another kind before the call happens (24 call forms x 8 receivers x 9 new values); 43 statement forms in which one part reassigns a variable that another part of the same statement is using (index base, store target, argument list, loop iterable, match subject, operands) on 6 initial values; 10 programs that use 60-300 distinct patterns / formats / keys in one run, and array patterns that match without binding a name; printf with every width 1-12 in three padding styles on strings whose byte and character counts differ; all also through the binary. Sampled: whole-grammar random programs in random layouts, token-level mutations, byte-level mutations of these and of the repository's fuzz corpus, raw bytes; hostile inputs (JSONL, truncated, stray closers, nesting to 20000, garbage, empty); generated / mutated / garbage selectors; EvalExpression on JSON-typed roots; fuzzing flag on and off; step budget 50000 (budget-exhausted runs are inconclusive). Non-trivial = at least 3 interpreter steps executed (hook) or a syntax error in a text of >= 10 bytes; distinct by hash of program+selectors+input.",
+		Rule:          "outcome classification only (no model): every run must end as ok / syntax / runtime / json; a recovered panic, a control-flow sentinel or any other error value, the death of the worker process, and for the binary a signal, a Go trace on stderr or a non-zero status without diagnostic are violations. Enumerated: {next, exit, break, continue, return, return v} x 16 placements (BEGIN, END, BEGINFILE, ENDFILE, pattern body, pattern expression via a match block, function called from each of the five rule kinds, match block in BEGIN / pattern rule / function, -r selector via a match block alone and after a plain selector) x {plain, while, for, for-in, nested for-in, nested if} x 4 inputs, all also through the binary; 28 nestable constructs nested 1000 / 8000 / as deep as 64 KiB allows, and 6 of them inside a self-recursive function (recursion x nesting); 22 cyclic / shared shapes (built twice) x 62 operations that walk a value (comparison, contains, sort, match, iteration, rendering, arithmetic, member chains, stores into itself) and 15 histories that shrink an array through one of two references and then walk it through the other; 25 store forms (plain, nested, through fresh names, through $, with ++ / += / --) x 18 keys of every kind (booleans, null, unset, containers, regex, function, fractions, negative, huge) on bases of every kind; every one-byte input and 50 short prefixes of byte-order marks, multi-byte sequences and JSON tokens; the six signals raised from every loop-header position / condition / print list through a match block, with and without an enclosing loop, at rule level and inside functions; method calls on every receiver kind whose argument reassigns the receiver's own location to a value of another kind before the call happens (24 call forms x 8 receivers x 9 new values); 43 statement forms in which one part reassigns a variable that another part of the same statement is using (index base, store target, argument list, loop iterable, match subject, operands) on 6 initial values; 10 programs that use 60-300 distinct patterns / formats / keys in one run, and array patterns that match without binding a name; printf with every width 1-12 in three padding styles on strings whose byte and character counts differ; all also through the binary. Sampled: whole-grammar random programs in random layouts, token-level mutations, byte-level mutations of these and of the repository's fuzz corpus, raw bytes; hostile inputs (JSONL, truncated, stray closers, nesting to 20000, garbage, empty); generated / mutated / garbage selectors; EvalExpression on JSON-typed roots; fuzzing flag on and off; step budget 50000 (budget-exhausted runs are inconclusive). Non-trivial = at least 3 interpreter steps executed (hook) or a syntax error in a text of >= 10 bytes; distinct by hash of program+selectors+input. Every sixth binary case (program up to 3 000 bytes) is also run with -dbg-ast and with -dbg-lex: status 0, or 1 with the syntax error, never a Go trace; -dbg-ast succeeds exactly when the text is no syntax error.",
 		NumCases:      c01Cases,
 		Run:           c01Run_,
 		MinConclusive: func(tier string) int { return 20000 },
@@ -671,6 +695,6 @@ func init() {
 		Exhaustive: func(tier string) string {
 			return "control-flow signal x placement x loop context x input matrix (2304 cells), nesting table, shape x operation table"
 		},
-		Assumptions: []string{"program texts up to 64 KiB", "memory exhaustion by accumulated allocation is out of scope: a worker that hits its address-space limit with an out-of-memory signature is inconclusive", "the -dbg-ast / -dbg-lex flags are out of scope"},
+		Assumptions: []string{"program texts up to 64 KiB", "memory exhaustion by accumulated allocation is out of scope: a worker that hits its address-space limit with an out-of-memory signature is inconclusive"},
 	})
 }
